@@ -1092,3 +1092,61 @@ Proof.
   destruct (w =? 1); [intros [X|X]; discriminate|].
   destruct ht; [destruct os|]; intros [X|X]; try discriminate; injection X as <-; lia.
 Qed.
+
+(* n + T < 2^64 (valid_params) is not implied by dispatch_apply_f's arithmetic alone: T <= min(n, cpus) < 2^31 leaves
+   n in (2^64 - 2^31, 2^64) uncovered.  For such n the code's da_index (size_t) would wrap after every index has been
+   claimed and one more participant overshoots, and index 0 would be handed out again — after more than 1.8e19 callouts
+   have run, which no execution can reach; it is a client-side bound: iterations <= 2^64 - 2^31 *)
+Theorem path_valid_params iterations nested maxpar w ht os T :
+  1 <= iterations <= 18446744073709551616 - 2147483648 -> 0 <= maxpar < 2147483648 -> 0 <= nested < 18446744073709551616 ->
+  (apply_f_path iterations nested maxpar w ht os = PathParallel T \/ apply_f_path iterations nested maxpar w ht os = PathRedirect T) ->
+  valid_params iterations T.
+Proof.
+  intros Hi Hm Hn H. destruct (path_thread_count iterations nested maxpar w ht os T ltac:(lia) Hm Hn H) as [A B].
+  unfold valid_params. lia.
+Qed.
+
+(* nested applies (the calling thread is inside the work function of an apply whose da_nested is `nested` >= 1):
+   the thread count is divided by the product of the iteration counts of the enclosing applies, so that the whole
+   nest asks for at most max-parallelism threads; once that product reaches the parallelism the inner apply takes the
+   serial path; the new da_nested is the product (no wrap: both factors below 65535) or the cap 65535 *)
+Theorem nested_thread_count maxpar nested iterations :
+  1 <= iterations < 18446744073709551616 -> 0 <= maxpar < 2147483648 -> 1 <= nested < 18446744073709551616 ->
+  let t := fst (apply_thr_cnt maxpar nested iterations) in
+  let nn := snd (apply_thr_cnt maxpar nested iterations) in
+  (maxpar <= nested -> t = 1) /\ (nested < maxpar -> 1 <= t /\ t * nested <= maxpar) /\
+  1 <= nn < 4294967296 /\
+  (nested < APPLY_MAX -> iterations < APPLY_MAX -> nn = nested * iterations) /\
+  (~ (nested < APPLY_MAX /\ iterations < APPLY_MAX) -> nn = APPLY_MAX).
+Proof.
+  intros Hi Hm Hn. unfold apply_thr_cnt, APPLY_MAX. cbn [fst snd].
+  assert (E0 : s32 maxpar = maxpar) by (unfold s32; rewrite Z.mod_small; lia). rewrite E0.
+  assert (Eu : u64 maxpar = maxpar) by (apply u64_id; lia). rewrite Eu.
+  destruct (Z.eqb_spec nested 0); [lia|].
+  split; [|split; [|split; [|split]]].
+  - intros H. destruct (Z.ltb_spec nested maxpar); [lia|]. change (u64 1) with 1.
+    destruct (Z.ltb_spec iterations 1); [lia|reflexivity].
+  - intros H. destruct (Z.ltb_spec nested maxpar); [|lia].
+    assert (En : s32 nested = nested) by (unfold s32; rewrite Z.mod_small; lia). rewrite En.
+    assert (Q0 : 1 <= maxpar ÷ nested) by (apply Z.quot_le_lower_bound; lia).
+    assert (Q1 : nested * (maxpar ÷ nested) <= maxpar) by (apply Z.mul_quot_le; lia).
+    assert (Q2 : maxpar ÷ nested <= maxpar) by (apply Z.quot_le_upper_bound; nia).
+    assert (Es : s32 (maxpar ÷ nested) = maxpar ÷ nested) by (unfold s32; rewrite Z.mod_small; lia). rewrite Es.
+    rewrite (u64_id (maxpar ÷ nested)) by lia.
+    destruct (Z.ltb_spec iterations (maxpar ÷ nested)).
+    + assert (Ei : s32 iterations = iterations) by (unfold s32; rewrite Z.mod_small; lia). rewrite Ei. nia.
+    + nia.
+  - destruct (Z.ltb_spec nested 65535), (Z.ltb_spec iterations 65535); cbn [andb]; try lia.
+    rewrite u64_id by nia. nia.
+  - intros A B. destruct (Z.ltb_spec nested 65535), (Z.ltb_spec iterations 65535); try lia. cbn [andb]. apply u64_id. nia.
+  - intros H. destruct (Z.ltb_spec nested 65535), (Z.ltb_spec iterations 65535); cbn [andb]; try reflexivity. exfalso. apply H. lia.
+Qed.
+
+(* ... and then the inner apply runs serially under dispatch_sync_f (the serial fallback of a saturated nest) *)
+Theorem nested_serial_fallback iterations nested maxpar w ht os :
+  1 <= iterations < 18446744073709551616 -> 0 <= maxpar < 2147483648 -> 1 <= nested < 18446744073709551616 ->
+  maxpar <= nested -> apply_f_path iterations nested maxpar w ht os = PathSerial.
+Proof.
+  intros Hi Hm Hn H. destruct (nested_thread_count maxpar nested iterations Hi Hm Hn) as (A & _).
+  unfold apply_f_path. destruct (Z.eqb_spec iterations 0); [lia|]. rewrite (A H). cbn. rewrite orb_true_r. reflexivity.
+Qed.
